@@ -34,6 +34,7 @@ type thread struct {
 	arrived  chan string
 	finished chan struct{}
 	panicked string
+	closed   bool   // finished was closed (spawned goroutines only)
 	hung     bool   // blocked for good by the harness (a channel that never returns)
 	ops      int    // scheduling points passed
 	obs      uint64 // hash of everything the thread has read so far
@@ -102,6 +103,11 @@ func (s *Sched) Point(op string) {
 		// a spawned goroutine has no wrapper: it is "finished" when it never comes back to a point;
 		// the harness bodies that spawn call Done() themselves
 	} else {
+		if t.name == "spawned" && t.closed {
+			// the same goroutine comes back after a delivery it had finished (sequential fan-out)
+			t.finished = make(chan struct{})
+			t.closed, t.done = false, false
+		}
 		s.mu.Unlock()
 	}
 	t.arrived <- op
@@ -189,7 +195,8 @@ func (s *Sched) Done() {
 	s.mu.Unlock()
 	// only goroutines the code under test spawned end this way; a delivery running inside a
 	// controlled thread (synchronous fan-out) ends with that thread
-	if t != nil && t.name == "spawned" {
+	if t != nil && t.name == "spawned" && !t.closed {
+		t.closed = true
 		close(t.finished)
 	}
 }
@@ -233,10 +240,12 @@ func (s *Sched) settle() {
 				if op == "#hung" {
 					t.hung, t.running = true, false
 				} else {
-					t.at, t.running = op, false
+					t.at, t.running, t.done = op, false, false
 				}
 			case <-t.finished:
-				t.done, t.running = true, false
+				if t.at == "" {
+					t.done, t.running = true, false
+				}
 			default:
 			}
 		}
